@@ -196,6 +196,8 @@ def pp(e):
         return "%s + %s" % (pp(e[1]), pp(e[2]))
     if k == "in":
         return "%s %s %s" % (pp(e[2]), "not in" if e[1] else "in", pp(e[3]))
+    if k == "set":
+        return "{" + ", ".join(pp(x) for x in e[1]) + "}"
     if k == "fstr":
         return 'f"' + "".join(fq(p) if isinstance(p, str) else "{" + pp(p) + "}" for p in e[1]) + '"'
     if k == "field":
@@ -248,6 +250,8 @@ def pp_pat(p):
         return p[1] + ("(" + ", ".join(pp_pat(x) for x in p[2]) + ")" if p[2] else "")
     if k == "tuple":
         return "(" + ", ".join(pp_pat(x) for x in p[1]) + ")"
+    if k == "guard":  # ("guard", pattern, condition)
+        return "%s if %s" % (pp_pat(p[1]), pp(p[2]))
     raise ValueError(p)
 
 
@@ -584,6 +588,8 @@ class Interp:
             return r if isinstance(base, str) else list(r)
         if k == "concat":
             return self.ev(e[1], env) + self.ev(e[2], env)
+        if k == "set":
+            return set(self.ev(x, env) for x in e[1])
         if k == "in":
             item = self.ev(e[2], env)
             cont = self.ev(e[3], env)
@@ -753,7 +759,8 @@ class Interp:
         if name == "max":
             return max(args) if len(args) > 1 else max(args[0])
         if name == "sum":
-            return ck_int(sum(args[0]))
+            t = sum(args[0])
+            return ck_int(t) if isinstance(t, int) else t
         if name == "sorted":
             return sorted(args[0])
         if name == "str":
@@ -1006,7 +1013,18 @@ class Interp:
             v = self.ev(s[1], env)
             for pat, body in s[2]:
                 b = {}
+                guard = None
+                if pat[0] == "guard":
+                    pat, guard = pat[1], pat[2]
                 if self.match(pat, v, b):
+                    if guard is not None:
+                        env.append(b)
+                        try:
+                            ok = self.ev(guard, env)
+                        finally:
+                            env.pop()
+                        if not ok:
+                            continue
                     env.append(b)
                     try:
                         self.block(body, env, new_scope=False)
